@@ -232,6 +232,8 @@ def h4(prog, ctx):
             ctx.ok("H4", "key_file_append initialises the slot it adds", ini[0].where, looped + ": every slot from the old to the new capacity")
         elif not bad and "alloc_length - 1" in idx:
             ctx.ok("H4", "key_file_append initialises the slot it adds", ini[0].where, "initialize(kf, %s) on every path from the realloc to success" % idx)
+        elif not bad and idx.endswith("->length - 1"):
+            ctx.inconclusive("H4", "key_file_append initialises the slot it adds", ini[0].where, "initialize(kf, %s): the last entry in use, which is the new slot only when the array was full" % idx)
         else:
             ctx.fail("H4", "key_file_append initialises the slot it adds", re[0].where,
                      "the array grows without initialize() of the new last slot (index %s)" % idx, key="append-init")
